@@ -145,6 +145,31 @@ def updateBlockW (P : Params) (rd : Bool → Disk → Res × Disk) (d : Disk) (o
     let nb := newImage P buf off rec
     (.ok nb, { blk := nb, cow := none })
 
+/-! ### the writer dying at a given point of `writeBlockRegionPayload`
+
+`old` is the buffer `readAndRestoreBlock` handed to the writer (what is on disk), `new` the image it writes.
+`skipZero = false` is the code as it is: `createCow` is called for EVERY pre-image, the all-zero one of a never
+written block included. `skipZero = true` is the variant "a never written block has nothing to preserve, skip the
+backup" (NOT what the code does; kept so that the proofs can tell the two apart). -/
+
+inductive CrashPoint where
+  | before                               -- before `createCow`
+  | cow (k : Nat)                        -- inside `os.WriteFile` of the backup, after `k` bytes
+  | torn (L : Nat)                       -- inside the block write: the first `L` bytes reached the disk
+  | mask (s : Nat) (bits : List Bool)    -- inside the block write: the `s`-byte units whose bit is set did
+  | after                                -- block written, backup deleted
+deriving Repr, DecidableEq, Inhabited
+
+/-- is a backup of the pre-image `old` written at all -/
+def backsUp (skipZero : Bool) (old : Block) : Bool := !(skipZero && isZero old)
+
+def crashDisk (skipZero : Bool) (old new : Block) : CrashPoint → Disk
+  | .before => ⟨old, none⟩
+  | .cow k => ⟨old, if backsUp skipZero old then some (old.take k) else none⟩
+  | .torn L => ⟨torn old new L, if backsUp skipZero old then some old else none⟩
+  | .mask s bits => ⟨tornMask old new s bits, if backsUp skipZero old then some old else none⟩
+  | .after => ⟨new, none⟩
+
 /-! ## Slot search inside the block (`findOneFileRegion`) and the registry operations -/
 
 def slotAt (buf : Block) (off : Nat) : List Nat := (buf.drop off).take Facts.handleSizeInBytes
